@@ -23,11 +23,12 @@ Fixpoint chunkify (fuel : nat) (cyc cur : list N) (d : bytes) : stream :=
       end
   end.
 
-Definition oentry := (N * N * list (N * N))%type.      (* kind (0 dir, 1 file), mode, content *)
+Definition oentry := (N * N * list (N * N))%type.      (* kind (0 dir, 1 file, 2 symlink), mode, content / link target *)
 Definition entry_match (e : entry) (o : oentry) : bool :=
   match e, o with
   | EDir m, (0, m', _) => m =? m'
   | EFile m c, (1, m', r) => (m =? m') && bytes_eqb c (unrle r)
+  | ELink t, (2, _, r) => bytes_eqb t (unrle r)
   | _, _ => false
   end.
 Definition tree_match (t : tree) (obs : list (bytes * oentry)) : bool :=
